@@ -295,3 +295,251 @@ def one_case(ctx, tmp, ci, kind, values, dt, label):
             if os.path.exists(path2):
                 os.remove(path2)
     os.remove(path)
+
+
+# ---- extras2 (harness extension hx_b): containers / dtypes, file and object histories, huge magnitudes and load factors, large records ----------
+
+def _np_check_loaded(got, v, m, n):
+    """C16.b on a loaded array with NumPy (large records): None or a description of the first violation"""
+    got = np.asarray(got)
+    if got.ndim != 1 or got.shape[0] != n:
+        return {'shape': got.shape, 'n': n}
+    want = m * np.asarray(v, dtype=float)
+    tol = abs(m) * 0.5e-6 * (1 + 1e-9) + np.abs(want) * 2.0 ** -50
+    bad = np.nonzero(~(np.abs(got - want) <= tol))[0]
+    return None if len(bad) == 0 else {'index': int(bad[0]), 'got': float(got[bad[0]]), 'want': float(want[bad[0]])}
+
+
+def _read(path):
+    with open(path, 'rb') as fh:
+        return fh.read()
+
+
+def _x2_containers(ctx, cur, tmp):
+    """(4) the record may be handed to the writers in any container / dtype, the time step as Python int or NumPy scalar: the file is byte for
+    byte the one written for the float64 array"""
+    import eqsig
+    from eqsig import loader
+    from _hxb_common import light_history
+    rng = ctx.rng
+    for it in range(25 if ctx.tier == 'quick' else 250):
+        n = rng.choice([1, 2, 3, 17, 50])
+        whole = it % 2 == 0
+        v = np.array([rng.randint(-2000, 2000) for _ in range(n)], dtype=float) if whole else np.array([rng.randint(-4096, 4096) / 64.0 for _ in range(n)])
+        dt = rng.choice([1.0, 2.0, 12.0, 100.0]) if it % 3 == 0 else rng.choice([0.01, 0.005, 0.25, 2.5])
+        label = rng.choice(LABELS)
+        inputs = {'values': v.tolist(), 'dt': dt, 'label': label}
+        cur.clear()
+        cur.update(inputs)
+        ctx.count_case(('x2c', v.tobytes(), dt, label), n >= 3)
+        ref = os.path.join(tmp, 'ref.txt')
+        loader.save_values_and_dt(ref, v, dt, label)
+        want = _read(ref)
+        for lab, c in gen.container_variants(v):
+            ctx.hist('extras2/container/' + lab)
+            p = os.path.join(tmp, 'c.txt')
+            snap = np.array(c)
+            r = call_impl(loader.save_values_and_dt, p, c, dt, label)
+            ctx.oracle('C16 save_values_and_dt writes the same file whatever container / dtype holds the values', r[0] == 'ok' and os.path.exists(p) and _read(p) == want,
+                       {**inputs, 'container': lab}, detail=r if r[0] != 'ok' else {'head': _read(p)[:80].decode('latin1'), 'want head': want[:80].decode('latin1')})
+            ctx.oracle('C16 saving leaves the values unchanged', np.array_equal(np.array(c), snap) and np.array(c).dtype == snap.dtype, {**inputs, 'container': lab})
+            if os.path.exists(p):
+                os.remove(p)
+            if isinstance(c, np.ndarray):
+                for cls in (eqsig.Signal, eqsig.AccSignal):
+                    r = call_impl(lambda: loader.save_signal(p, cls(c, dt, label=label)))
+                    ctx.oracle('C16 save_signal(%s(values in any dtype)) writes the same file as for float64 values' % cls.__name__,
+                               r[0] == 'ok' and os.path.exists(p) and _read(p) == want, {**inputs, 'container': lab}, detail=r if r[0] != 'ok' else None)
+                    if os.path.exists(p):
+                        os.remove(p)
+        if float(dt).is_integer():
+            for lab, d in (('int', int(dt)), ('np.int64', np.int64(dt)), ('np.float64', np.float64(dt)), ('np.float32', np.float32(dt))):
+                p = os.path.join(tmp, 'd.txt')
+                r = call_impl(loader.save_values_and_dt, p, v, d, label)
+                ctx.oracle('C16 save_values_and_dt writes the same file whatever numeric type holds the time step', r[0] == 'ok' and os.path.exists(p) and _read(p) == want,
+                           {**inputs, 'dt type': lab}, detail=r if r[0] != 'ok' else {'head': _read(p)[:60].decode('latin1')})
+                if os.path.exists(p):
+                    os.remove(p)
+        # objects that reached (values, dt) through a history
+        p = os.path.join(tmp, 'h.txt')
+        sig = light_history(ctx, eqsig.AccSignal if it % 2 else eqsig.Signal, v, dt, label=label)
+        r = call_impl(loader.save_signal, p, sig)
+        ctx.oracle('C16 save_signal(object with a history) writes the file of its current values, time step and label', r[0] == 'ok' and os.path.exists(p) and
+                   _read(p) == want, inputs, detail=r if r[0] != 'ok' else {'head': _read(p)[:80].decode('latin1')})
+        ctx.last_object_history = None
+        for f in (p, ref):
+            if os.path.exists(f):
+                os.remove(f)
+
+
+def _x2_histories(ctx, cur, tmp):
+    """(5) the file is the only state: a path that is written again holds exactly the new signal (longer or shorter than the old one), loading
+    twice gives the same, editing a loaded object does not change what the next load returns; every loader through its top-level name"""
+    import eqsig
+    from eqsig import loader
+    rng = ctx.rng
+    for it in range(20 if ctx.tier == 'quick' else 200):
+        p = os.path.join(tmp, 'same-path.txt')
+        steps = []
+        for step in range(3):
+            n = rng.choice([1, 2, 5, 40, 120, 1000 if it % 5 == 0 else 7])
+            v = np.array(gen_values(rng, n, rng.choice(['mixed', 'gauss', 'dyadic', 'big'])))
+            dt = rng.choice(DTS)
+            label = rng.choice(LABELS)
+            steps.append({'n': n, 'dt': dt, 'label': label, 'head': v[:3].tolist()})
+            inputs = {'history (files written to the same path)': list(steps), 'values': v.tolist() if n <= 120 else 'gen_values, n=1000', 'dt': dt, 'label': label}
+            cur.clear()
+            cur.update(inputs)
+            ctx.count_case(('x2h', it, step, v.tobytes(), dt, label), n >= 3)
+            ctx.hist('extras2/same-path/step=%d' % step)
+            if step % 2:
+                eqsig.save_signal(p, eqsig.AccSignal(v, dt, label=label))
+            else:
+                loader.save_values_and_dt(p, v, dt, label)
+            loads = [('load_values_and_dt', lambda: loader.load_values_and_dt(p), 1.0), ('eqsig.load_asig(load_label=True)', lambda: eqsig.load_asig(p, load_label=True), 1.0),
+                     ('eqsig.load_sig', lambda: eqsig.load_sig(p), 1.0), ("eqsig.load_signal(astype='acc_sig')", lambda: eqsig.load_signal(p, astype='acc_sig'), 1.0),
+                     ("eqsig.load_signal(astype='signal')", lambda: eqsig.load_signal(p, astype='signal'), 1.0)]
+            for nm, f, m in loads:
+                r1 = call_impl(f)
+                if r1[0] != 'ok':
+                    ctx.oracle('C16.b %s loads a file written over an older one' % nm, False, inputs, detail=r1)
+                    continue
+                vals, gdt = (r1[1][0], r1[1][1]) if nm == 'load_values_and_dt' else (r1[1].values, r1[1].dt)
+                bad = _np_check_loaded(vals, v, m, n)
+                ctx.oracle('C16.b %s after the path was written again: points, values (6 decimals) and time step (4 decimals) of the LAST signal saved' % nm,
+                           bad is None and abs(gdt - dt) <= 0.5e-4 * (1 + 1e-9), inputs, detail={'values': bad, 'dt': gdt})
+                if nm.startswith('eqsig.load_asig'):
+                    ctx.oracle('C16.b load_asig(load_label=True) after the path was written again: label of the LAST signal saved', r1[1].label == label, inputs,
+                               detail={'got': r1[1].label})
+                if nm != 'load_values_and_dt':
+                    want_t = 'Signal' if 'load_sig' in nm and 'signal(' not in nm or "astype='signal'" in nm else 'AccSignal'
+                    ctx.oracle('C16.c %s returns the requested object type' % nm, type(r1[1]).__name__ == want_t, inputs, detail=type(r1[1]).__name__)
+                    # edit the loaded object, load again: the second load is what the first one was
+                    before = np.array(vals, dtype=float)
+                    r1[1].reset_values(before[::-1] * 3.0 + 1.0)
+                    r2 = call_impl(f)
+                    ctx.oracle('C16 loading again after editing the loaded object returns the saved signal again', r2[0] == 'ok' and
+                               np.array_equal(np.asarray(r2[1].values), before) and r2[1].dt == gdt, inputs)
+                else:
+                    np.asarray(vals)[...] = 7.0
+                    r2 = call_impl(f)
+                    ctx.oracle('C16 loading again after overwriting the loaded array returns the saved values again', r2[0] == 'ok' and
+                               _np_check_loaded(r2[1][0], v, 1.0, n) is None and r2[1][1] == gdt, inputs)
+        if os.path.exists(p):
+            os.remove(p)
+
+
+def _x2_magnitudes(ctx, cur, tmp):
+    """(2)/(3) every magnitude: values up to 1e300 are written in fixed notation (hundreds of digits) and load back within the format's
+    precision; load factors m of any type and size (Python int, tiny, huge, negative)"""
+    import eqsig
+    from eqsig import loader
+    rng = ctx.rng
+    for it in range(25 if ctx.tier == 'quick' else 250):
+        n = rng.choice([1, 2, 3, 10, 50])
+        v = np.array([rng.choice([-1, 1]) * rng.choice([10.0 ** rng.randint(10, 300) * rng.uniform(1, 9.99), 2.0 ** rng.randint(40, 1000), 1e15 + rng.random(),
+                                                       rng.gauss(0, 1), 0.0, 2.0 ** -rng.randint(1, 1000), 9007199254740993.0, 1.7e308]) for _ in range(n)])
+        dt = rng.choice(DTS)
+        label = rng.choice(LABELS)
+        inputs = {'values': v.tolist(), 'dt': dt, 'label': label}
+        cur.clear()
+        cur.update(inputs)
+        ctx.hist('extras2/magnitudes')
+        ctx.count_case(('x2m', v.tobytes(), dt, label), n >= 3)
+        p = os.path.join(tmp, 'huge.txt')
+        r = call_impl(eqsig.save_signal, p, eqsig.AccSignal(v, dt, label=label)) if it % 2 else call_impl(loader.save_values_and_dt, p, v, dt, label)
+        if r[0] != 'ok' or not os.path.exists(p):
+            ctx.oracle('C16 saving a signal writes a file (values of any magnitude)', False, inputs, detail=r)
+            continue
+        lines = _read(p).decode('utf-8').split('\n')
+        ok = len(lines) == n + 2 and lines[0] == label and all(re.fullmatch(r'-?\d+\.\d{6}', l) for l in lines[2:])
+        ok = ok and all(abs(Fraction(l) - fr(x)) <= HALF6 for l, x in zip(lines[2:], v.tolist()))
+        ctx.oracle('C16.a every value is written in fixed notation with 6 decimals, within 0.5e-6 of the value, for every sign and magnitude (up to 1e300)', ok, inputs,
+                   detail={'n_lines': len(lines), 'line lengths': [len(l) for l in lines[:6]]})
+        for m in (1.0, rng.choice([2, -1, 3]), rng.choice([1e-6, 0.001, -1e-300 if np.max(np.abs(v)) < 1e100 else -0.5]), rng.choice([1e6, -4096.0])):
+            with np.errstate(all='ignore'):
+                finite = bool(np.all(np.isfinite(np.asarray(v) * float(m))))
+            if not finite:
+                continue
+            for nm, f in (('load_sig', lambda: eqsig.load_sig(p, m=m)), ('load_asig', lambda: eqsig.load_asig(p, load_label=True, m=m))):
+                rr = call_impl(f)
+                ok = rr[0] == 'ok' and type(rr[1]).__name__ == ('Signal' if nm == 'load_sig' else 'AccSignal')
+                bad = None
+                if ok:
+                    got = np.asarray(rr[1].values)
+                    ok = got.shape == (n,)
+                    for i in range(n if ok else 0):
+                        want = fr(float(m)) * fr(float(v[i]))
+                        if not (abs(fr(float(got[i])) - want) <= abs(fr(float(m))) * HALF6 + abs(want) * ULP + Fraction(1, 10**320)):
+                            bad = {'index': i, 'got': float(got[i]), 'want': float(want)}
+                            break
+                    ok = ok and bad is None and abs(rr[1].dt - dt) <= 0.5e-4 * (1 + 1e-9) and rr[1].npts == n
+                ctx.oracle('C16.b %s: points, time step and values to 6 decimals scaled by the load factor m (any magnitude, m of any numeric type)' % nm, ok,
+                           {**inputs, 'm': m, 'type(m)': type(m).__name__}, detail=bad if rr[0] == 'ok' else rr)
+        os.remove(p)
+
+
+def _x2_large(ctx, cur, tmp):
+    """(1) records of tens of thousands of samples (above 2^15 / 2^16 and every plausible block size), other value kinds, steps >= 1 s and labels
+    than the fixed long records of the main run; the clauses with NumPy in O(n)"""
+    import eqsig
+    from eqsig import loader
+    rng = ctx.rng
+    sizes = [rng.choice([32768, 32769, 30000]), rng.choice([50000, 60000, 65536, 65537])] if ctx.tier == 'quick' else [30000, 32768, 32769, 50000, 65536, 65537, 100000, 131073]
+    for n in sizes:
+        seed = rng.randrange(2 ** 31)
+        g = np.random.default_rng(seed)
+        kind = rng.choice(['gauss', 'big', 'tie'])
+        v = g.standard_normal(n) * 9.81 if kind == 'gauss' else g.choice([-1.0, 1.0], size=n) * (1e6 + g.random(n)) if kind == 'big' else (2 * g.integers(-2000, 2000, size=n) + 1) / 128.0
+        dt = rng.choice([0.005, 0.02, 1.0, 2.5])
+        label = rng.choice(LABELS)
+        m = rng.choice([1.0, -2.5])
+        desc = {'generator': 'c16._x2_large', 'kind': kind, 'n': n, 'numpy_seed': seed, 'dt': dt, 'label': label, 'm': m}
+        cur.clear()
+        cur.update(desc)
+        ctx.hist('extras2/large/' + kind)
+        ctx.count_case(('x2l', n, seed, kind, dt), True, sample=desc)
+        p = os.path.join(tmp, 'large.txt')
+        r = call_impl(eqsig.save_signal, p, eqsig.AccSignal(v, dt, label=label)) if n % 2 else call_impl(loader.save_values_and_dt, p, v, dt, label)
+        if r[0] != 'ok' or not os.path.exists(p):
+            ctx.oracle('C16 saving a signal writes a file', False, desc, detail=r)
+            continue
+        lines = _read(p).decode('utf-8').split('\n')
+        ok = len(lines) == n + 2 and lines[0] == label and bool(re.fullmatch(r'%d -?\d+\.\d{4}' % n, lines[1]))
+        if ok:
+            ok = all(re.fullmatch(r'-?\d+\.\d{6}', l) for l in lines[2:]) and _np_check_loaded(np.array([float(l) for l in lines[2:]]), v, 1.0, n) is None
+        ctx.oracle('C16.a (large) file == label line, header line, one line per value (6 decimals, within 0.5e-6), no trailing newline', ok, desc,
+                   detail={'n_lines': len(lines), 'header': lines[1] if len(lines) > 1 else None})
+        for nm, f, mm in (('load_values_and_dt', lambda: loader.load_values_and_dt(p), 1.0), ('load_asig', lambda: eqsig.load_asig(p, load_label=True, m=m), m),
+                          ('load_sig', lambda: eqsig.load_sig(p, m=m), m)):
+            rr = call_impl(f)
+            if rr[0] != 'ok':
+                ctx.oracle('C16.b (large) %s loads a saved file' % nm, False, desc, detail=rr)
+                continue
+            vals, gdt = (rr[1][0], rr[1][1]) if nm == 'load_values_and_dt' else (rr[1].values, rr[1].dt)
+            bad = _np_check_loaded(vals, v, mm, n)
+            ctx.oracle('C16.b (large) %s: same number of points, values to 6 decimals (scaled by m), time step to 4 decimals' % nm,
+                       bad is None and abs(gdt - dt) <= 0.5e-4 * (1 + 1e-9), desc, detail={'values': bad, 'dt': gdt})
+            if nm == 'load_asig':
+                ctx.oracle('C16.b (large) load_asig: the saved label is returned when requested', rr[1].label == label and rr[1].npts == n, desc)
+        os.remove(p)
+
+
+def extras2(ctx):
+    from _hxb_common import guarded_sections
+    os.makedirs(WORK, exist_ok=True)
+    tmp = tempfile.mkdtemp(dir=WORK, prefix='c16x-')
+    try:
+        guarded_sections(ctx, 'C16', [(nm, lambda c, cur, f=f: f(c, cur, tmp)) for nm, f in
+                                      (('containers', _x2_containers), ('histories', _x2_histories), ('magnitudes', _x2_magnitudes), ('large', _x2_large))])
+    finally:
+        shutil.rmtree(tmp, ignore_errors=True)
+
+
+_run_main2 = run
+
+
+def run(ctx):
+    _run_main2(ctx)
+    extras2(ctx)
+    ctx.flush()
